@@ -165,7 +165,7 @@ class NPProxy(types.ModuleType):
         if isinstance(x, real_np.ndarray) and x.dtype == object:
             if any(is_sym(v) for v in x.ravel()):
                 raise TypeError("symbolic angle reached a trigonometric function (unmodelled)")
-            return x.astype(float)
+            return real_np.array(x.tolist(), dtype=float)  # (SymArray.astype(float) is the identity)
         return x
 
     def deg2rad(self, x):
@@ -579,6 +579,18 @@ class SymDateTime:
         if set(kw) - {"tzinfo"}:
             raise TypeError("SymDateTime.replace: only tzinfo is modelled")
         return self
+
+    def timetuple(self):
+        import types as _t
+
+        h, m_, s_ = self._fields()
+        return _t.SimpleNamespace(tm_mon=self.month, tm_mday=self.day, tm_hour=h, tm_min=m_, tm_sec=s_, tm_wday=self.weekday(), tm_yday=self.doy + 1, tm_isdst=-1)
+
+    def date(self):
+        return SymDateTime(self.leap, self.jan1, self.doy, 0, self.leap_next, self.wraps)
+
+    def time(self):
+        raise TypeError("SymDateTime.time() is not modelled")
 
     def __add__(self, td):
         if not isinstance(td, SymTimedelta):
